@@ -132,8 +132,11 @@ class CaseGen:
         """index into the model's flat list, guided by the implementation's current state"""
         rng = self.rng
         hist = getattr(runner, "succeeded", None)
-        if hist and rng.random() < 0.2:
-            return rng.choice(hist)      # retry something that worked before (e.g. before a reset)
+        queue = getattr(runner, "retry_queue", None)
+        if queue and rng.random() < 0.85:
+            return queue.pop()           # right after a reset: what worked before, latest first
+        if hist and rng.random() < 0.15:
+            return rng.choice(hist)      # retry something that worked before
         r = rng.random()
         if r < 0.8:
             st = np.asarray(runner.env.current_state.tensor)
@@ -176,6 +179,7 @@ class CaseGen:
             kind = rng.choices(names_, ws)[0]
             if kind == "reset":
                 op = [0]
+                runner.retry_queue = list(getattr(runner, "succeeded", [])[-6:])
             elif kind in ("step", "gen"):
                 ai = self.pick_action(runner, flat, by_target)
                 wa = flat[ai]
